@@ -1057,6 +1057,50 @@ func (e *Env) call(n *ast.CallExpr) Value {
 			ts = append(ts, t)
 		}
 		return Eq(App("g_Verify_r0", SInt, ts...), IntC(0))
+	case "local", "loopvar":
+		// local("x"): current value of the local variable x in the function that is executing (event time);
+		// loopvar("x"): value x had at the start of the current iteration of the innermost cut loop
+		lit, ok := n.Args[0].(*ast.BasicLit)
+		if !ok || len(e.st.Frames) == 0 {
+			return e.fail("%s needs a string literal", id.Name)
+		}
+		nm, _ := strconv.Unquote(lit.Value)
+		fr := e.st.Top()
+		if id.Name == "loopvar" {
+			li := e.ex.loopInfo(fr.Fn)
+			var best *Loop
+			for _, lp := range li.Loops {
+				if fr.Cut[lp.Header] && lp.Body[fr.Block] {
+					if best == nil || len(lp.Body) < len(best.Body) {
+						best = lp
+					}
+				}
+			}
+			if best != nil {
+				for _, ins := range best.Header.Instrs {
+					if phi, ok := ins.(*ssa.Phi); ok && phi.Comment == nm {
+						if v, ok := fr.Locals[phi]; ok {
+							return v
+						}
+					}
+				}
+			}
+			return e.fail("no-event: loop variable %s", nm)
+		}
+		if v, ok := fr.Names[nm]; ok {
+			return v
+		}
+		if v, ok := fr.Names["&"+nm]; ok {
+			if p, ok := v.(*PtrV); ok {
+				return e.loadPtr(p)
+			}
+		}
+		for i, prm := range fr.Fn.Params {
+			if prm.Name() == nm && i < len(fr.Args) {
+				return fr.Args[i]
+			}
+		}
+		return e.fail("no-event: local %s", nm)
 	case "errIs":
 		// errIs(err, Sentinel): errors.Is over the error's known structure (joins, wraps)
 		a, ok1 := e.eval(n.Args[0]).(*IfaceV)
